@@ -86,9 +86,10 @@ class Env:
             def join(self, timeout: float | None = None) -> None:
                 self.joined += 1
 
-            def die(self) -> None:  # harness only: the OS process is gone (OOM kill, crash, …)
+            def die(self) -> None:  # harness only: the OS process is gone, for whatever reason
                 if self._alive:
-                    self._alive, self.exitcode = False, -9
+                    # OOM kill, clean exit after an external SIGTERM (0), error exit, segfault, SIGTERM
+                    self._alive, self.exitcode = False, (-9, 0, 1, -11, -15)[self.idx % 5]
 
         class FakeManager:
             def dict(self, *a, **k):
